@@ -1,7 +1,7 @@
-\* (E) exhaustive, quick: all command sequences of length <= 7, reduced request table
+\* (E) exhaustive, quick: all command sequences of length <= 7, 6 candidate locations (4 globals + 2 scoped locals), spread request table
 SPECIFICATION Spec
 CONSTANTS
-  Globals = {"G0", "G1", "G2", "G3", "G4", "G5"}
+  Globals = {"G0", "G1", "G2", "G3"}
   Locals = {"LA", "LB"}
   KindTab <- SpreadTab
   MaxOps = 7
